@@ -56,3 +56,12 @@ pub fn short(s: &str, n: usize) -> String {
         format!("{t}…")
     }
 }
+
+/// the checks whose widest enumeration takes seconds run it in both tiers; `deep` marks what only the thorough tier adds
+pub fn wide(_tier: &str) -> bool {
+    true
+}
+
+pub fn deep(tier: &str) -> bool {
+    tier == "thorough"
+}
